@@ -320,6 +320,62 @@ class StubCache:
         return cm()
 
 
+def ob_throttle_names(w, P):
+    """name=None: the bucket key is derived from the function.  Two different functions that share their __name__ (methods of two
+    classes, helpers of two outer functions) throttled on one cache each get their own bucket: calls of one do not use up the
+    allowance of the other"""
+    L = w.L
+    sx.REAL_MODE = True
+    try:
+        clk = {'t': R(z3.RealVal(0))}
+        slept = []
+
+        def tf():
+            return clk['t']
+
+        def sf(d):
+            slept.append(d)
+            if len(slept) > 4:
+                raise NoProgress()
+            clk['t'] = clk['t'] + d
+        cache = StubCache()
+        ran = []
+
+        class Alpha:
+            @staticmethod
+            def poll():
+                ran.append('alpha')
+
+        class Beta:
+            @staticmethod
+            def poll():
+                ran.append('beta')
+
+        def outer1():
+            def helper():
+                ran.append('h1')
+            return helper
+
+        def outer2():
+            def helper():
+                ran.append('h2')
+            return helper
+        pairs = {'methods': (Alpha.poll, Beta.poll), 'helpers': (outer1(), outer2())}[P['which']]
+        gap = w.real('gap', 0, None)
+        fa = L.recipes.throttle(cache, 1, 1, time_func=tf, sleep_func=sf)(pairs[0])
+        clk['t'] = clk['t'] + gap
+        fb = L.recipes.throttle(cache, 1, 1, time_func=tf, sleep_func=sf)(pairs[1])
+        cl = [('C20,C16', 'two functions of the same __name__ get two buckets', len(cache.d) == 2)]
+        fa()
+        n0 = len(slept)
+        fb()   # its own bucket is full: it starts at once
+        cl.append(('C20', "a call of one function does not use up the other function's allowance", len(slept) == n0 and len(ran) == 2))
+        flag('nontrivial')
+        return cl
+    finally:
+        sx.REAL_MODE = False
+
+
 def ob_throttle(w, P):
     """K calls of a throttled function arriving after arbitrary real-valued gaps under a virtual clock:
     for all i <= j:  j - i + 1 <= count + (count / seconds) * (t_j - t_i);  every call starts after <= 2K sleeps"""
@@ -637,5 +693,7 @@ def jobs(tier):
         for (c, s_) in [(1, 1), (2, 1), (1, 2), (3, 2)]:
             out.append(dict(id='throttle.K=%d.count=%d.seconds=%d' % (K, c, s_), func='ob_throttle', params=dict(K=K, count=c, seconds=s_), tags=['C20'],
                             functions=['recipes.throttle'], weight=K * K, twin=False))
+    for which in ('methods', 'helpers'):
+        out.append(dict(id='throttle.names.%s' % which, func='ob_throttle_names', params=dict(which=which), tags=['C20', 'C16'], functions=['recipes.throttle', 'core.full_name'], weight=2, twin=False))
     out.append(dict(id='throttle.K=4.two_callers', func='ob_throttle', params=dict(K=4, count=2, seconds=1, callers=2), tags=['C20'], functions=['recipes.throttle'], weight=20, twin=False))
     return out
